@@ -403,3 +403,110 @@ Proof.
   - apply normal_eqb_spec. vm_compute. reflexivity.
   - apply normal_eqb_spec. vm_compute. reflexivity.
 Qed.
+
+(* ------------------------------------------------------------------ affine reparametrisation of the Z columns:
+   column j of Z becomes  az_j * z_j + cz_j  with az_j <> 0  (Z·D + 1·c^T, D = diag(az) invertible) *)
+Definition vmul (u v : vec) : vec := map (fun p => (fst p * snd p)%Qc) (combine u v).
+Definition vdiv (u v : vec) : vec := map (fun p => (fst p / snd p)%Qc) (combine u v).
+Definition affineZ (az cz : vec) (Zr : list vec) : list vec := map (fun z => vadd (vmul z az) cz) Zr.
+
+Lemma length_vmul : forall u v, length (vmul u v) = Nat.min (length u) (length v).
+Proof. intros. unfold vmul. now rewrite map_length, combine_length. Qed.
+Lemma dot_vmul : forall z a d, dot (vmul z a) d = dot z (vmul a d).
+Proof.
+  induction z as [|x z IH]; intros a d; [reflexivity|].
+  destruct a as [|p a]; [reflexivity|]. destruct d as [|q d].
+  - change (vmul (p :: a) []) with (@nil Qc). now rewrite !dot_nil_r.
+  - change (vmul (x :: z) (p :: a)) with ((x * p)%Qc :: vmul z a).
+    change (vmul (p :: a) (q :: d)) with ((p * q)%Qc :: vmul a d).
+    rewrite !dot_cons, IH. ring.
+Qed.
+Lemma dot_vmul_vdiv : forall z a d, length z = length a -> Forall (fun x => x <> 0%Qc) a ->
+  dot z (vmul a (vdiv d a)) = dot z d.
+Proof.
+  induction z as [|x z IH]; intros [|p a] d H F; try discriminate; [reflexivity|].
+  destruct d as [|q d]; [reflexivity|]. inversion F; subst.
+  change (vmul (p :: a) (vdiv (q :: d) (p :: a))) with ((p * (q / p))%Qc :: vmul a (vdiv d a)).
+  rewrite !dot_cons, IH by (cbn in H; try lia; assumption). field. assumption.
+Qed.
+
+Lemma resid_affine_z : forall k Zr az cz y b b',
+  zwf k Zr -> length az = k -> length cz = k -> Forall (fun x => x <> 0%Qc) az ->
+  length y = length Zr -> length b = S k -> length b' = S k ->
+  normal_eq (S k) (design Zr) y b ->
+  normal_eq (S k) (design (affineZ az cz Zr)) y b' ->
+  resid (design (affineZ az cz Zr)) y b' = resid (design Zr) y b.
+Proof.
+  intros k Zr az cz y b b' Hz Ha Hc Hnz Hy Hb Hb' N N'.
+  assert (Hz' : zwf k (affineZ az cz Zr)).
+  { intros z Hin. unfold affineZ in Hin. apply in_map_iff in Hin. destruct Hin as [z0 [<- Hz0]].
+    rewrite length_vadd, length_vmul, (Hz z0 Hz0), Ha, Hc. now rewrite !Nat.min_id. }
+  assert (Hrow : forall d0 dr, mulv (design (affineZ az cz Zr)) (d0 :: dr) =
+                               mulv (design Zr) ((d0 + dot cz dr)%Qc :: vmul az dr)).
+  { intros d0 dr. rewrite !mulv_design. unfold affineZ. rewrite map_map.
+    apply map_ext_in. intros z Hin.
+    rewrite dot_vadd_l by (rewrite length_vmul, (Hz z Hin), Ha, Hc; apply Nat.min_id).
+    rewrite dot_vmul. ring. }
+  destruct b' as [|b0' br']; [discriminate|].
+  apply (resid_unique_gen (design Zr) (design (affineZ az cz Zr)) y b (b0' :: br')
+           ((b0' + dot cz br')%Qc :: vmul az br')
+           (fun d => match d with
+                     | [] => []
+                     | d0 :: dr => (d0 - dot cz (vdiv dr az))%Qc :: vdiv dr az
+                     end)).
+  - now rewrite length_design.
+  - rewrite !length_design. unfold affineZ. apply map_length.
+  - cbn [length]. rewrite length_vmul, Ha, Hb. cbn in Hb'. f_equal. lia.
+  - apply Hrow.
+  - intros [|d0 dr].
+    + rewrite !mulv_nil. unfold design, affineZ. now rewrite !map_map.
+    + rewrite Hrow, !mulv_design. apply map_ext_in. intros z Hin.
+      rewrite dot_vmul_vdiv by (try assumption; rewrite (Hz z Hin); now symmetry). ring.
+  - apply (normal_eq_orth (S k)); [now apply wf_design|assumption].
+  - apply (normal_eq_orth (S k)); [now apply wf_design|assumption].
+Qed.
+
+(* the full invariance: every variable v (X, Y, each Z column) replaced by a_v * v + c_v,
+   a_X, a_Y > 0 and a_Zj <> 0 *)
+Lemma pearsonr_affine_invariant_full : forall zempty k Zr x y bx by_ ax cx ay cy az cz bx' by',
+  (0 < ax)%Qc -> (0 < ay)%Qc -> length az = k -> length cz = k -> Forall (fun a => a <> 0%Qc) az ->
+  lstsq_ok k Zr x y bx by_ ->
+  lstsq_ok k (affineZ az cz Zr) (affine ax cx x) (affine ay cy y) bx' by' ->
+  pearsonr_model zempty (affineZ az cz Zr) (affine ax cx x) (affine ay cy y) bx' by' =
+  pearsonr_model zempty Zr x y bx by_.
+Proof.
+  intros zempty k Zr x y bx by_ ax cx ay cy az cz bx' by' Hax Hay Haz Hcz Hnz
+         [Hz Hx Hy Hbx Hby Nx Ny] [Hz' Hx' Hy' Hbx' Hby' Nx' Ny'].
+  unfold pearsonr_model. destruct zempty; [now apply corr_nf_affine|].
+  destruct bx as [|bx0 bxr]; [discriminate|]. destruct by_ as [|by0 byr]; [discriminate|].
+  set (bx2 := ((ax * bx0 + cx)%Qc :: vscale ax bxr)). set (by2 := ((ay * by0 + cy)%Qc :: vscale ay byr)).
+  assert (Ex : resid (design Zr) (affine ax cx x) bx2 = vscale ax (resid (design Zr) x (bx0 :: bxr))).
+  { unfold resid, bx2. rewrite !mulv_design. apply vsub_affine. }
+  assert (Ey : resid (design Zr) (affine ay cy y) by2 = vscale ay (resid (design Zr) y (by0 :: byr))).
+  { unfold resid, by2. rewrite !mulv_design. apply vsub_affine. }
+  assert (Nx2 : normal_eq (S k) (design Zr) (affine ax cx x) bx2).
+  { apply (normal_eq_orth (S k)); [now apply wf_design|]. rewrite Ex. apply orth_vscale.
+    apply (normal_eq_orth (S k)); [now apply wf_design|assumption]. }
+  assert (Ny2 : normal_eq (S k) (design Zr) (affine ay cy y) by2).
+  { apply (normal_eq_orth (S k)); [now apply wf_design|]. rewrite Ey. apply orth_vscale.
+    apply (normal_eq_orth (S k)); [now apply wf_design|assumption]. }
+  assert (Lx : length (affine ax cx x) = length Zr) by (unfold affine; now rewrite map_length).
+  assert (Ly : length (affine ay cy y) = length Zr) by (unfold affine; now rewrite map_length).
+  assert (Lbx2 : length bx2 = S k) by (unfold bx2; cbn; rewrite length_vscale; cbn in Hbx; lia).
+  assert (Lby2 : length by2 = S k) by (unfold by2; cbn; rewrite length_vscale; cbn in Hby; lia).
+  rewrite (resid_affine_z k Zr az cz (affine ax cx x) bx2 bx'), (resid_affine_z k Zr az cz (affine ay cy y) by2 by');
+    try assumption.
+  rewrite Ex, Ey. now apply corr_nf_vscale.
+Qed.
+
+(* non-vacuity for the transformed call: Z -> -2 Z + 3, X -> 2 X + 1, Y -> Y/2 - 4 *)
+Example lstsq_ok_affine_example :
+  let Zr' := affineZ [Q2Qc (-2 # 1)] [Q2Qc 3] exZ in
+  let x' := affine (Q2Qc 2) 1%Qc exx in let y' := affine (Q2Qc (1 # 2)) (Q2Qc (-4 # 1)) exy in
+  lstsq_ok 1 Zr' x' y' (lstsq 2 (design Zr') x') (lstsq 2 (design Zr') y').
+Proof.
+  cbv zeta. constructor; try reflexivity.
+  - intros z Hz. vm_compute in Hz. repeat (destruct Hz as [<-|Hz]; [reflexivity|]). destruct Hz.
+  - apply normal_eqb_spec. vm_compute. reflexivity.
+  - apply normal_eqb_spec. vm_compute. reflexivity.
+Qed.
